@@ -126,7 +126,28 @@ var c03 = Register("C03", "C03.quorem", func(a c03Args) *Violation {
 })
 
 func genQuoRemPair(t *rapid.T) (D, D) {
-	switch ir(t, 0, 11, "pairKind") {
+	switch ir(t, 0, 12, "pairKind") {
+	case 12:
+		// a quotient longer than the format whose first 35 digits lie within 2^64 of the largest coefficient (the
+		// hand-over between the stages of the long division and every "is there room for another digit" test
+		// sit there): x = floor(Q * y / 10^dy) for Q = Cmax - r, r < 2^64, placed g exponents above y
+		dy := ir(t, 1, 12, "dy")
+		y := genDigits(t, dy)
+		if y.Sign() == 0 {
+			y.SetInt64(7)
+		}
+		q := new(big.Int).Sub(ref.Cmax, new(big.Int).SetUint64(u64(t, "r")>>uint(ir(t, 0, 63, "rShift"))))
+		cx := new(big.Int).Mul(q, y)
+		cx.Quo(cx, ref.Pow10(ref.DecLen(y)))
+		cx.Add(cx, bi(int64(ir(t, 0, 1, "up"))))
+		cx = capCoef(cx)
+		ey := genExp(t)
+		g := ir(t, ref.DecLen(y)+1, ref.DecLen(y)+30, "gap")
+		ex := ey + g
+		if ex > ref.Emax {
+			ex, ey = ref.Emax, ref.Emax-g
+		}
+		return DFin(genSign(t), cx, ex), DFin(genSign(t), y, clampExp(ey))
 	case 10, 11:
 		// magnitudes within a factor of ten of each other although the exponents are far apart: the dividend has
 		// a long coefficient at a low exponent, the divisor a short one (often 1) at a high exponent, and the
